@@ -3,6 +3,7 @@ C18 — Path-set policy admits only covered paths; counters never exceed their b
 PROPERTY THEOREMS ONLY (helper lemmas live in Lemmas/FileSet.lean).
 -/
 import GoSandbox.Model.FileSet
+import GoSandbox.Model.FileSetGen
 import GoSandbox.Spec.Covers
 import GoSandbox.Lemmas.FileSet
 namespace GoSandbox.Props.C18
@@ -250,5 +251,32 @@ example : inSetSmart ⟨["/w/*".toList], false⟩ "/w/a".toList = true ∧
     inSetSmart ⟨["/w/*".toList], false⟩ "/w/a/b".toList = false := by decide
 example : allowedCount "fork".toList (runHist [("fork".toList, 3)]
     ["fork".toList, "fork".toList, "fork".toList, "fork".toList]) = 2 := by decide
+
+/-! ### the regenerated code computes the hand model (evaluated by the kernel) -/
+
+open GoSandbox.Model.FileSetGen in
+def tieSets : List FileSet :=
+  let keys : List (List String) := [[], ["/"], ["/*"], ["/a"], ["/a/"], ["/a/*"], ["/a/a/"], ["/*", "/a/"], ["/a/a", "/a/*"], ["//"], ["*"], ["a/"]]
+  keys.flatMap (fun k => [⟨k.map String.toList, false⟩, ⟨k.map String.toList, true⟩])
+
+open GoSandbox.Model.FileSetGen in
+/-- **tie of IsInSetSmart**: on every string over {'/', 'a', '*'} of length ≤ 3, ten longer names (two and
+three levels deep, doubled slashes) and 24 sets (root
+entries, directory entries, children entries, nested, malformed, with and without SystemRoot) the
+regenerated `IsInSetSmart`/`dirname` return what the hand model returns -/
+theorem C18_tie_inset :
+    tieSets.all (fun s => (words ['/', 'a', '*'] 3 ++ ["/a/a", "/a/*", "/a/a/", "/a/a/a", "//a/", "/a//", "/a/a/a/a", "/*/a", "a/a/a", "/aa/a"].map String.toList).all
+      (fun n => genInSet s n == some (inSetSmart s n))) = true := by
+  decide +kernel
+
+open GoSandbox.Model.FileSetGen in
+/-- **tie of the class cascade**: IsWritableFile ⊆ IsReadableFile ⊆ IsStatableFile and IsSoftBanFile of the
+regenerated code equal the hand model, with `realPath` the identity and with `realPath` = "" (unresolvable) -/
+theorem C18_tie_classes :
+    (let fs : FileSets := ⟨⟨["/w/".toList], false⟩, ⟨["/r/*".toList], false⟩, ⟨["/s".toList], true⟩, ⟨["/b/".toList], false⟩⟩
+     ["/w/x", "/r/x", "/r/x/y", "/s", "/", "/b/q", "", "/zz"].all (fun n =>
+       [fun (x : Str) => x, fun _ => ([] : Str)].all (fun rp =>
+         genClasses fs rp n.toList == some (isWritable fs rp n.toList, isReadable fs rp n.toList, isStatable fs rp n.toList, isSoftBan fs rp n.toList)))) = true := by
+  decide +kernel
 
 end GoSandbox.Props.C18
